@@ -214,6 +214,9 @@ def run(db, chk):
                                False, where=fns["compute_tree_boruvka"].ploc, function=BG, construct="agreement",
                                detail=str(weights), extra={"unit": uname})
         n_sc += connect_rule(db, chk, uname, fns, rec)
+    chk.absorb(db, "C09", {"C09-P2"}, "C15-K5", "every member of the basin graph that persists between updates is "
+               "reset before it is read (shared with C09-P2): root, edges, tree and scratch of a previous update "
+               "cannot leak into the next one", pred=lambda o: "basin_graph" in o["instance"], min_instances=20)
     chk.count_scenarios(n_sc, True)
 
 
